@@ -143,6 +143,7 @@ pub fn replay(report: &Report, prop: &str, input: &Value) -> Result<(), Fail> {
     let program = input["program"].as_str().unwrap_or("all");
     match invoke(prop, program, seeds) {
         Err(e) => {
+            crate::explore::REPLAY_INCONCLUSIVE.store(true, std::sync::atomic::Ordering::SeqCst);
             report.note_inconclusive(&format!("miri replay not run: {e}"));
             Ok(())
         }
@@ -150,7 +151,8 @@ pub fn replay(report: &Report, prop: &str, input: &Value) -> Result<(), Fail> {
         Ok(r) => match classify(&r.output) {
             Some((sig, line)) => Err(Fail::new(sig, format!("{line}\n{}", head_tail(&r.output)))),
             None => {
-                report.note_inconclusive(&format!("miri replay failed without a verdict: {}", tail(&r.output, 3)));
+                crate::explore::REPLAY_INCONCLUSIVE.store(true, std::sync::atomic::Ordering::SeqCst);
+            report.note_inconclusive(&format!("miri replay failed without a verdict: {}", tail(&r.output, 3)));
                 Ok(())
             }
         },
